@@ -126,7 +126,7 @@ theorem C05_submit_once_quorum_good_strong (n : Nat) (hq : 0 < quorumOf n) (styl
       have : (init n 1 style true).q = quorumOf n := rfl
       omega
   have hmem := i3 rfl hfin
-  apply eq_singleton_of_nodup _ 0 (C05_submit_at_most_once _ ms (by simp [init, List.nodup_range])) _ hmem
+  apply eq_singleton_of_nodup _ 0 (C05_submit_at_most_once _ ms (by simp [init])) _ hmem
   intro x hx
   obtain ⟨sub, hsub, rfl⟩ := List.mem_map.1 hx
   have := (C05_submit_only_valid _ ms sub hsub).2.2
@@ -276,7 +276,8 @@ theorem C05_multiroot_liveness_partial_faultfree (n : Nat) (hn : n = 4 ∨ n = 7
       -- pick an expected root
       have hexne : (init n k .loopMatch true).expected ≠ [] := by
         intro e
-        rw [e] at hlen0
+        have e' : List.range k = [] := e
+        rw [e'] at hlen0
         have : m0.entries = [] := List.eq_nil_of_length_eq_zero hlen0.symm
         unfold validateForm at hwf0
         simp [this] at hwf0
@@ -305,5 +306,12 @@ theorem C05_multiroot_liveness_partial_faultfree (n : Nat) (hn : n = 4 ∨ n = 7
     simpa [init] using (C05_submit_only_valid _ ms sub hsub).2.2
   · intro ha
     exact hall a (by simpa [init] using ha)
+
+/-- fault-free instance: three members, two objects, both submitted by the third message -/
+example :
+    (run (init 4 2 .loopMatch true)
+      [⟨1, true, [(1, 0, true), (1, 1, true)]⟩, ⟨3, true, [(3, 1, true), (3, 0, true)]⟩,
+       ⟨5, true, [(5, 0, true), (5, 1, true)]⟩, ⟨2, true, [(2, 0, true), (2, 1, true)]⟩]).2.map (·.root) = [0, 1] := by
+  decide
 
 end Ssv.PartialSig
